@@ -110,7 +110,7 @@ class C05(Profile):
     wall_cap = {'quick': 900, 'thorough': 5 * 3600}
     probes = ['fudge_branch_2.0', 'fudge_branch_2.1', 'no_fudge_needed', 'clock_before_old', 'dict_chain_len>=3',
               'explicit_modified_sub_ms', 'sco_locked_refused', 'revoked_refused', 'reserialised_head',
-              'none_removed_property', 'chain_len>=5']
+              'none_removed_property', 'chain_len>=5', 'granular_marking_as_version_minter']
     rule = ('plans are generated from run_seed (1-4 chains over every versionable type of both spec versions in object / '
             'dict / unregistered-dict / SCO forms, 10-60 versioning ops each with a steered clock reading); a run is '
             'non-trivial when >=1 op produced a new version AND >=1 oracle comparison ran on it; distinct = distinct plan digests')
@@ -171,8 +171,9 @@ class C05(Profile):
                 op['allow_custom'] = rng.choice([None, None, True])
                 op['reser'] = rng.random() < 0.15
             elif kind == 'mark':
-                op['fn'] = rng.choice(['add', 'add', 'remove', 'set', 'clear'])
+                op['fn'] = rng.choice(['add', 'add', 'remove', 'set', 'clear', 'gadd', 'gadd', 'gclear', 'gset', 'gremove'])
                 op['marking'] = rng.sample(C.MARKING_IDS, rng.randrange(1, 3))
+                op['sel'] = rng.choice([['type'], ['id'], ['created'], ['type', 'id'], ['labels']])
             elif kind == 'newver_T':
                 op['T_rel'] = rng.choice(T_RELS)
                 op['T_form'] = rng.choice(['str3', 'str6', 'strmin', 'datetime', 'datetime_offset'])
@@ -314,10 +315,22 @@ class C05(Profile):
             elif f == 'set':
                 fn = lambda: stix2.markings.set_markings(head, m, None)
                 want = set(m)
-            else:
+            elif f == 'clear':
                 fn = lambda: stix2.markings.clear_markings(head, None)
                 want = set()
-            changes = {'__marks__': sorted(want)}
+            else:
+                # granular operations, used here only as version minters (what they do to the pair set is C07's question):
+                # a refusal (selector not present, marking not found) is legitimate, the resulting granular_markings are not compared
+                sel = [x for x in op.get('sel', ['type']) if x in hjson] or ['type']
+                g = {'gadd': lambda: stix2.markings.add_markings(head, m, sel),
+                     'gclear': lambda: stix2.markings.clear_markings(head, sel),
+                     'gset': lambda: stix2.markings.set_markings(head, m, sel),
+                     'gremove': lambda: stix2.markings.remove_markings(head, m, sel)}
+                fn = g[f]
+                want = None
+                expect = 'either'
+                world.probe('granular_marking_as_version_minter')
+            changes = {'__marks__': sorted(want)} if want is not None else {'granular_markings': '__ignored__'}
         elif kind == 'newver_T':
             T = old_us + op['T_rel']
             tf = op['T_form']
@@ -374,6 +387,10 @@ class C05(Profile):
                 kw = {'revoked': False}
             fn = (lambda: head.new_version(**kw)) if (op['via'] == 'method' and is_obj) else (lambda: V.new_version(head, **kw))
             changes = None
+        if expect == 'ok' and kind in ('newver', 'newver_T') and hjson.get('granular_markings'):
+            marked = {sel.split('.')[0] for g in hjson['granular_markings'] for sel in g.get('selectors', [])}
+            if marked & set(changes or {}):
+                expect = 'either'      # changing / removing a property that a granular marking addresses may invalidate the selector
         if st['revoked']:
             expect = 'refused'
 
@@ -397,6 +414,9 @@ class C05(Profile):
             world.stat('ops_refused')
             return
         res = out.value
+        if res is head and kind == 'mark' and op['fn'] in ('gremove', 'gclear') and not hjson.get('granular_markings'):
+            world.log(op=kind, outcome='same-object')
+            return
         if res is head and kind == 'mark' and op['fn'] == 'remove' and not hjson.get('object_marking_refs'):
             # documented no-op: remove_markings on an unmarked object returns the object itself
             world.log(op=kind, outcome='same-object')
@@ -427,6 +447,8 @@ class C05(Profile):
             for k, v in changes.items():
                 if k == '__T__':
                     T = v
+                    continue
+                if v == '__ignored__':
                     continue
                 if k == '__marks__':
                     if sorted(rjson.get('object_marking_refs', [])) != v or ('object_marking_refs' in rjson and not v):
